@@ -3,6 +3,7 @@ package wmpt
 import (
 	"bytes"
 	"context"
+	"encoding/binary"
 	"errors"
 	"sync"
 
@@ -354,15 +355,46 @@ func (t *WeightedMerkleTrie) DeleteNodes() error {
 	return nil
 }
 
-// Root returns the root hash of the trie, if the root is dirty, it will recalculate the hash
+// Root returns the root hash of the trie, if the root is dirty, it will recalculate the hash.
+// The hash of a dirty trie is computed without marking the nodes clean: Commit relies on the
+// dirty flags to find the nodes it has to save.
 func (t *WeightedMerkleTrie) Root() []byte {
 	if t.root == nil {
 		return emptyState
 	}
-	if t.root.Dirty() {
-		return t.root.CalcHash()
+	return peekHash(t.root)
+}
+
+// peekHash computes the hash of a node like CalcHash, but neither caches it nor resets the dirty flag
+func peekHash(node Node) []byte {
+	if node == nil {
+		return emptyState
 	}
-	return t.root.Hash()
+	if !node.Dirty() {
+		return node.Hash()
+	}
+	switch n := node.(type) {
+	case *routingNode:
+		m := make([]byte, 0, branchNodeHashDataLength)
+		m = binary.BigEndian.AppendUint64(m, n.weight)
+		for _, child := range n.Children {
+			m = append(m, peekHash(child)...)
+		}
+		return encryption.RawHash(m)
+	case *shortNode:
+		m := make([]byte, 0, len(n.key)+32)
+		m = append(m, n.key...)
+		if n.value != nil {
+			m = append(m, peekHash(n.value)...)
+		}
+		return encryption.RawHash(m)
+	case *valueNode:
+		m := make([]byte, 0, hashWithWeightLength)
+		m = binary.BigEndian.AppendUint64(m, n.weight)
+		m = append(m, n.value...)
+		return encryption.RawHash(m)
+	}
+	return node.CalcHash()
 }
 
 func (t *WeightedMerkleTrie) Weight() uint64 {
